@@ -392,16 +392,34 @@ func (k *kase) guarded(f func()) string {
 		f()
 	}
 	suffix := ""
-	select {
-	case s := <-done:
-		suffix = s
-		if s != "" {
-			k.aborted = true
+	// watchdog: a hang is declared only after a full interval without a new token plus a grace period
+	// (a descheduled process must not look like a deadlock)
+	seen, idle := 0, 0
+wait:
+	for {
+		select {
+		case s := <-done:
+			suffix = s
+			if s != "" {
+				k.aborted = true
+			}
+			break wait
+		case <-time.After(time.Duration(hangMs) * time.Millisecond):
+			k.mu.Lock()
+			n := len(k.toks)
+			k.mu.Unlock()
+			if n != seen {
+				seen, idle = n, 0
+				continue
+			}
+			idle++
+			if idle >= 3 {
+				suffix = "blocked"
+				k.aborted = true
+				hangs++
+				break wait
+			}
 		}
-	case <-time.After(time.Duration(hangMs) * time.Millisecond):
-		suffix = "blocked"
-		k.aborted = true
-		hangs++
 	}
 	k.mu.Lock()
 	toks := append([]string(nil), k.toks...)
@@ -487,7 +505,7 @@ func rsCase(n int) string {
 	for i := 0; i < n; i++ {
 		event.GetGlobalEC().Publish(name, i)
 	}
-	deadline := time.Now().Add(3 * time.Second)
+	deadline := time.Now().Add(1500 * time.Millisecond)
 	for time.Now().Before(deadline) {
 		mu.Lock()
 		g := got
@@ -570,6 +588,39 @@ func concCase(pubs, n, cs int) string {
 	return strings.Join(parts, " ")
 }
 
+// concSubCase: `cs` fresh centres GSubscribe the same NEW global name at the same moment from their own
+// goroutines (`rounds` fresh names), then one global publication per name: every centre must receive it.
+// (GlobalEventCenter.getECList does Load-then-Store, so two first subscribers can each install their own list.)
+func concSubCase(cs, rounds int) string {
+	lost := 0
+	for r := 0; r < rounds; r++ {
+		rsNo++
+		name := fmt.Sprintf("csub%d-%d", caseNo, rsNo)
+		ecs := make([]*event.LocalEventCenter, cs)
+		start := make(chan struct{})
+		var wg sync.WaitGroup
+		for i := range ecs {
+			ecs[i] = event.NewLocalEventCenter(false)
+			wg.Add(1)
+			go func(ec *event.LocalEventCenter) {
+				defer wg.Done()
+				<-start
+				ec.GSubscribe(name, func(args ...interface{}) {})
+			}(ecs[i])
+		}
+		close(start)
+		wg.Wait()
+		event.GetGlobalEC().Publish(name, 1)
+		for _, ec := range ecs {
+			if len(ec.GetChanEvent()) != 1 {
+				lost++
+			}
+			ec.Clear()
+		}
+	}
+	return fmt.Sprintf("lost=%d", lost)
+}
+
 // exec interprets one op line against the real code.
 func exec(op string) string {
 	ws := hx.Words(op)
@@ -650,6 +701,8 @@ func exec(op string) string {
 		return fmt.Sprintf("q=%d", len(ct.loc.GetChanEvent()))
 	case "rs":
 		return hx.Guard(func() string { return rsCase(hx.KVInt(ws, "n")) })
+	case "concsub":
+		return hx.Guard(func() string { return concSubCase(hx.KVInt(ws, "cs"), hx.KVInt(ws, "rounds")) })
 	case "conc":
 		return hx.Guard(func() string { return concCase(hx.KVInt(ws, "pubs"), hx.KVInt(ws, "n"), hx.KVInt(ws, "cs")) })
 	}
@@ -693,7 +746,13 @@ func (g *gen) tag() int {
 	return 1 + r.Intn(g.nt)
 }
 
-func (g *gen) ev() int { return 1 + g.h.R.Intn(3) }
+// event names 1..3, biased towards 1 so that listeners and publications meet
+func (g *gen) ev() int {
+	if g.h.R.Intn(2) == 0 {
+		return 1
+	}
+	return 1 + g.h.R.Intn(3)
+}
 
 // sopStr draws one centre operation; w = weights (sub, unsub, unsubfn, pub, gpub, clear)
 func (g *gen) sopStr(w [6]int) string {
@@ -712,7 +771,12 @@ func (g *gen) sopStr(w [6]int) string {
 	}
 	switch k {
 	case 0:
-		return fmt.Sprintf("s.%d.%d.%d.%d", g.centreIdx(), g.ev(), g.tag(), r.Intn(2))
+		// fresh templates come from the upper half of the tag range (the opening line uses the lower half)
+		t := g.tag()
+		if r.Intn(4) != 0 {
+			t = g.nt/2 + 1 + r.Intn(g.nt-g.nt/2)
+		}
+		return fmt.Sprintf("s.%d.%d.%d.%d", g.centreIdx(), g.ev(), t, r.Intn(2))
 	case 1:
 		return fmt.Sprintf("u.%d.%d.%d", g.centreIdx(), g.ev(), g.tag())
 	case 2:
@@ -742,7 +806,7 @@ func (g *gen) genCase() []string {
 	h, r := g.h, g.h.R
 	kinds := kindSets[r.Intn(len(kindSets))]
 	g.nc = strings.Count(kinds, ",") + 1
-	g.nt = 4 + r.Intn(7)
+	g.nt = 6 + r.Intn(9)
 	lines := []string{"reset cs=" + kinds}
 	fam := r.Intn(10)
 	var sw, tw [6]int // script weights, top-level weights
@@ -788,7 +852,15 @@ func (g *gen) genCase() []string {
 		h.Count("malformed.def")
 		lines = append(lines, "def t=1 b= f=0 s=", "def t=99 b= f=0 s=zz", "do ops=s.0.1")
 	}
-	// light code-pointer check: same pointer twice on one name
+	// opening line: a handful of subscriptions
+	if r.Intn(5) != 0 {
+		n := 2 + r.Intn(5)
+		parts := make([]string, n)
+		for j := range parts {
+			parts[j] = fmt.Sprintf("s.%d.%d.%d.%d", r.Intn(g.nc), g.ev(), 1+r.Intn(g.nt/2), r.Intn(2))
+		}
+		lines = append(lines, "do ops="+strings.Join(parts, ";"))
+	}
 	nops := 4 + r.Intn(10)
 	for i := 0; i < nops; i++ {
 		switch x := r.Intn(20); {
@@ -849,12 +921,65 @@ func (g *gen) fullCase() []string {
 	return lines
 }
 
+// reach records which behaviours of the code under test the generated input actually reached.
+func reach(h *hx.T, obs string) {
+	depth, maxd, inv := 0, 0, 0
+	for _, t := range strings.Fields(obs) {
+		switch {
+		case t == "[":
+			depth++
+			if depth > maxd {
+				maxd = depth
+			}
+		case t == "]":
+			depth--
+		case t[0] == 'i':
+			inv++
+			if depth > 1 {
+				h.Count("reached.invocation-in-nested-publication")
+			}
+		case t == "s0":
+			h.Count("reached.subscribe-refused")
+		case t == "s+" && depth > 0:
+			h.Count("reached.subscribe-inside-listener")
+		case t == "u" && depth > 0:
+			h.Count("reached.unsubscribe-inside-listener")
+		case t == "c" && depth > 0:
+			h.Count("reached.clear-inside-listener")
+		case t == "x":
+			h.Count("reached.depth-cap")
+		case t == "q":
+			h.Count("reached.publish-queued-usechan")
+		case strings.HasPrefix(t, "g:") && len(t) > 2:
+			h.Count("reached.global-fanout")
+			if strings.Contains(t, ".") {
+				h.Count("reached.global-fanout-2+centres")
+			}
+		case t == "blocked":
+			h.Count("reached.blocked")
+		case t == "bad" || t == "dup":
+			h.Count("reached.rejected-op")
+		}
+	}
+	if inv > 0 {
+		h.Count("reached.lines-with-invocations")
+	}
+	if inv > 1 {
+		h.Count("reached.lines-with-2+invocations")
+	}
+	if maxd >= 3 {
+		h.Count("reached.depth3")
+	}
+}
+
 func TestRun(t *testing.T) {
 	h := hx.Open()
 	defer h.Close()
 	run := func(op string) bool {
-		h.Emit(op, exec(op))
-		return hangs < 40
+		obs := exec(op)
+		h.Emit(op, obs)
+		reach(h, obs)
+		return hangs < 15
 	}
 	if ops := hx.ReplayOps(); ops != nil {
 		for _, op := range ops {
@@ -878,6 +1003,10 @@ func TestRun(t *testing.T) {
 		case x < 3:
 			h.Count("family.runservice")
 			lines = []string{"reset cs=L", fmt.Sprintf("rs n=%d", h.R.Intn(40))}
+		case x < 5 && i%4 == 0:
+			// concurrent first subscriptions to one new global name (D17: getECList must LoadOrStore)
+			h.Count("family.concurrent-subscribe")
+			lines = []string{"reset cs=L", fmt.Sprintf("concsub cs=%d rounds=%d", 2+h.R.Intn(3), 60)}
 		case x < 4:
 			h.Count("family.concurrent")
 			lines = []string{"reset cs=L", fmt.Sprintf("conc pubs=%d n=%d cs=%d", 1+h.R.Intn(4), 1+h.R.Intn(200), 1+h.R.Intn(3))}
@@ -891,6 +1020,15 @@ func TestRun(t *testing.T) {
 				return
 			}
 		}
+	}
+	// one longer concurrent-subscribe case per run
+	rounds := 500
+	if h.Thorough() {
+		rounds = 5000
+	}
+	h.Count("family.concurrent-subscribe")
+	for _, op := range []string{"reset cs=L", fmt.Sprintf("concsub cs=4 rounds=%d", rounds), fmt.Sprintf("concsub cs=3 rounds=%d", rounds)} {
+		run(op)
 	}
 	h.Stats["hangs"] = hangs
 }
